@@ -27,7 +27,7 @@ def run(chk):
     rng = random.Random(chk.seed)
     items = []
     for (label, prog, ext) in sc.family("resume", quick=chk.quick):
-        paths = et.explore(prog, ext_menu=ext, max_depth=14, max_paths=chk.pick(4, 40), rng=random.Random(rng.random()),
+        paths = et.explore(prog, ext_menu=ext, max_depth=chk.pick(14, 18), max_paths=chk.pick(4, 150), rng=random.Random(rng.random()),
                            timeout_advance=False, drain=True, max_ext=2)
         for (tr, sched) in paths:
             cases = et.snapshot_cases(prog, sched, ext)
